@@ -42,6 +42,8 @@ def run_c02(res, rng):
     cases += [D.gen_c02(rng.fork('big%d' % i), 'big%d' % i, big=True) for i in range(2 if res.tier == 'quick' else 20)]
     # reassembly buffers growing past 64 KiB (accepted chains of few large / many MTU-sized segments)
     cases += D.big_chain_cases(rng.fork('chain'), 'chain', res.tier == 'thorough')
+    # event counts around 2^16 / 2^15 between the abort of a reassembly and a stray continuation of the same endpoint
+    cases += D.wrap_count_cases(rng.fork('wrap'), 'wc', res.tier == 'thorough')
     # every truncation of the TECMP samples
     tr = rng.fork('tecmp')
     for j, f in enumerate(D.tecmp_samples(tr)):
@@ -51,7 +53,7 @@ def run_c02(res, rng):
     def proj(c, lines):
         return ['N ' + l.split()[1] for l in lines if l.startswith('N ')] + anomalies(lines)
     correspondence(res, cases, proj, D.judge_c02, 'memory safety / termination of decode')
-    res.cov['rule'] = ('sequences of 1-20 buffers on one decoder: random bytes, 0x00-led buffers, TECMP samples of every kind and CMP frames (valid, inconsistent inner lengths, segment chains), each mutated by truncation, byte corruption, length/type/flag field +-1/0/0xFF, appended bytes; every truncation of sample frames; 64 KiB buffers; accepted segment chains whose total payload is 65519..131070 bytes. '
+    res.cov['rule'] = ('sequences of 1-20 buffers on one decoder: random bytes, 0x00-led buffers, TECMP samples of every kind and CMP frames (valid, inconsistent inner lengths, segment chains), each mutated by truncation, byte corruption, length/type/flag field +-1/0/0xFF, appended bytes; every truncation of sample frames; 64 KiB buffers; accepted segment chains whose total payload is 65519..131070 bytes; histories in which 32767 / 65534..65536 (thorough: up to 131071) reassemblies of another endpoint are opened and released between the abort of an endpoint\'s reassembly and a stray continuation segment of it. '
                        'Each input is copied to an exact-size heap block that is poisoned and freed before results are read; results are re-read after all decoders are destroyed (ASan+UBSan build). non-trivial = distinct buffers of >= 24 bytes')
     res.cov['distinct_nontrivial'] = nontrivial_frames(cases)
     res.cov['input_distribution'] = frame_stats(cases)
@@ -61,8 +63,10 @@ def run_c04(res, rng):
     n = 1500 if res.tier == 'quick' else 60000
     cases = corpus_cases('C04') + [D.gen_c04(rng.fork('w%d' % i), 'w%d' % i) for i in range(n)]
     cases += [D.truncation_cases(rng.fork('t%d' % i), 't%d' % i) for i in range(60 if res.tier == 'quick' else 2000)]
+    for r in range(1 if res.tier == 'quick' else 12):
+        cases += D.polyglot_cases(rng.fork('pg%d' % r), 'pg%d_' % r)
     correspondence(res, cases, proj_nk, D.judge_ref, 'decoded fields vs wire')
-    res.cov['rule'] = ('frames = header (version != 0, random ids/type) + 0-8 unsegmented messages of all payload kinds with random 64/32/16-bit field values, 3/4 consistent and 1/4 with one inner length / flag made inconsistent; fed plain, zero-padded, truncated at a random offset, and (separately) truncated at every offset; optional prior open chain on the decoder. '
+    res.cov['rule'] = ('frames = header (version != 0, random ids/type) + 0-8 unsegmented messages of all payload kinds with random 64/32/16-bit field values, 3/4 consistent and 1/4 with one inner length / flag made inconsistent; fed plain, zero-padded, truncated at a random offset, and (separately) truncated at every offset; optional prior open chain on the decoder; plus polyglot frames: capture-module frames whose header fields take the TECMP layout\'s legal values at the TECMP offsets (type byte 2/3, stream id = a TECMP message type, sequence counter = a TECMP data type, first payload word = the TECMP entry length that would tile the frame). '
                        'Frames come from lib/common.py serialisers written from the layout table; judge = lib/gen_dec.py RefDecoder/spec_packet. non-trivial = distinct frames >= 24 bytes')
     res.cov['distinct_nontrivial'] = nontrivial_frames(cases)
     res.cov['input_distribution'] = frame_stats(cases)
